@@ -69,12 +69,13 @@ theorem exclusion {s : Shared} {pre post : List Thread} {t : Thread} (h : LInv (
     exact not_mem_of_count_zero this
 
 /-- What a goroutine about to access the map holds. -/
-theorem eff_holds_lock {t : Thread} (ht : TInv t) {a : DOp} {rest : List Instr} (hcode : t.code = .eff a :: rest) :
+theorem eff_holds_lock {t : Thread} (ht : TInv t) {a : DOp} {rest : List Instr} (hcode : t.code = .eff a :: rest)
+    (htm : a.touchesMap = true) :
     (a.isWrite = true → (LockId.map, true) ∈ t.held) ∧
     ((LockId.map, true) ∈ t.held ∨ (LockId.map, false) ∈ t.held) := by
   have := ht.wf
   rw [hcode] at this
-  simp only [wfc, Bool.and_eq_true] at this
+  simp only [wfc, Bool.and_eq_true, htm, Bool.not_true, Bool.false_or] at this
   cases hw : a.isWrite with
   | true =>
     simp only [hw, if_true, List.contains_iff_mem] at this
